@@ -91,8 +91,8 @@ def bounded(tier, seed, pairs):
         return None, f'CHECKER-ERROR bounded C06 run did not produce a result (rc={rc}): {err[-600:]}'
 
 
-def main(tier='quick', seed=0):
-    t0 = time.time()
+def deductive_records(prop=PROP):
+    """the contract obligations of depccg/unification.py (used by C06 itself, and by C03 / C04 whose rule proofs rest on this contract)"""
     w = get_world()
     pairs = pattern_pairs()
     # the loop summary of Unification.__call__ is computed once here (its obligations are recorded by this run) and
@@ -122,6 +122,16 @@ def main(tier='quick', seed=0):
         lib.update(r.get('lib', []))
         inlined.update(r.get('inlined', []))
         paths += r.get('paths', 0)
+    if prop != PROP:
+        for x in records:
+            if x['name'].startswith(PROP + '/'):
+                x['name'] = prop + '/' + x['name'][len(PROP) + 1:]
+    return records, errors, lib, inlined, paths, pairs
+
+
+def main(tier='quick', seed=0):
+    t0 = time.time()
+    records, errors, lib, inlined, paths, pairs = deductive_records()
     b, err = bounded(tier, seed, pairs)
     binfo = None
     if err:
